@@ -1686,6 +1686,18 @@ impl SctpInner {
         let _inbound_streams = buf.get_u16();
         let initial_tsn = buf.get_u32();
 
+        // RFC 4960 §5.2.2: a duplicated or delayed INIT must not disturb an
+        // association that is already established (tags and TSN state are in use).
+        if *self.state.lock() == SctpState::Connected {
+            debug!("SCTP: ignoring INIT on established association");
+            return Ok(());
+        }
+        // A retransmitted INIT (same initiate tag, association not yet up) is
+        // answered with the same tag and initial TSN as before, so whichever
+        // INIT-ACK the peer acts on matches our state.
+        let repeated_init = self.verification_tag.load(Ordering::SeqCst) != 0
+            && self.remote_verification_tag.load(Ordering::SeqCst) == initiate_tag;
+
         self.peer_rwnd.store(a_rwnd, Ordering::SeqCst);
         let init_ssthresh = (a_rwnd as usize).max(SSTHRESH_MIN);
         self.ssthresh.store(init_ssthresh, Ordering::SeqCst);
@@ -1695,7 +1707,11 @@ impl SctpInner {
             .store(initial_tsn.wrapping_sub(1), Ordering::SeqCst);
 
         // Generate local tag
-        let local_tag = random_u32();
+        let local_tag = if repeated_init {
+            self.verification_tag.load(Ordering::SeqCst)
+        } else {
+            random_u32()
+        };
         self.verification_tag.store(local_tag, Ordering::SeqCst);
 
         // Generate HMAC-protected state cookie
@@ -1714,6 +1730,11 @@ impl SctpInner {
         let initial_tsn = random_u32();
         #[cfg(rustrtc_verif)]
         let initial_tsn = crate::verif_hooks::initial_tsn_override().unwrap_or(initial_tsn);
+        let initial_tsn = if repeated_init {
+            self.next_tsn.load(Ordering::SeqCst)
+        } else {
+            initial_tsn
+        };
         self.next_tsn.store(initial_tsn, Ordering::SeqCst);
         init_ack_params.put_u32(initial_tsn);
 
@@ -1744,6 +1765,14 @@ impl SctpInner {
     }
 
     async fn handle_init_ack(&self, chunk: Bytes) -> Result<()> {
+        // RFC 4960 §5.2.3: an INIT-ACK is only meaningful while our INIT is
+        // outstanding (COOKIE-WAIT); a duplicated or late one is discarded.
+        let waiting_for_init_ack =
+            matches!(&*self.t1_chunk.lock(), Some((ct, _, _)) if *ct == CT_INIT);
+        if !waiting_for_init_ack {
+            debug!("SCTP: ignoring unexpected INIT-ACK");
+            return Ok(());
+        }
         self.t1_cancel();
 
         let mut buf = chunk;
@@ -1797,6 +1826,13 @@ impl SctpInner {
     }
 
     async fn handle_cookie_ack(&self, _chunk: Bytes) -> Result<()> {
+        // RFC 4960 §5.2.5: a COOKIE-ACK outside COOKIE-ECHOED is discarded.
+        let waiting_for_cookie_ack =
+            matches!(&*self.t1_chunk.lock(), Some((ct, _, _)) if *ct == CT_COOKIE_ECHO);
+        if !waiting_for_cookie_ack {
+            debug!("SCTP: ignoring unexpected COOKIE-ACK");
+            return Ok(());
+        }
         self.t1_cancel();
         *self.state.lock() = SctpState::Connected;
         self.advanced_peer_ack_tsn.store(
@@ -2209,6 +2245,12 @@ impl SctpInner {
         // Send COOKIE ACK
         let tag = self.remote_verification_tag.load(Ordering::SeqCst);
         self.send_chunk(CT_COOKIE_ACK, 0, Bytes::new(), tag).await?;
+
+        // RFC 4960 §5.2.4: a duplicated COOKIE-ECHO on an established
+        // association is acknowledged again but changes nothing.
+        if *self.state.lock() == SctpState::Connected {
+            return Ok(());
+        }
 
         *self.state.lock() = SctpState::Connected;
         self.advanced_peer_ack_tsn.store(
